@@ -22,6 +22,7 @@ type View struct {
 	OCSP          []byte // stapled OCSP response as reported by ConnectionState
 	PeerCerts     [][]byte
 	EKM           []byte
+	TLSUnique     []byte // tls-unique channel binding as reported by ConnectionState
 	EKMErr        error
 	Read          []byte // application bytes received
 	ReadErr       error  // error that ended reading (io.EOF for a clean close)
@@ -121,6 +122,7 @@ func GMEnd(cfg *gmtls.Config, client bool, a App, v *View, keep **gmtls.Conn) fu
 		v.Complete, v.Version, v.Suite, v.DidResume = st.HandshakeComplete, st.Version, st.CipherSuite, st.DidResume
 		v.Proto = st.NegotiatedProtocol
 		v.OCSP = st.OCSPResponse
+		v.TLSUnique = append([]byte{}, st.TLSUnique...)
 		for _, pc := range st.PeerCertificates {
 			v.PeerCerts = append(v.PeerCerts, pc.Raw)
 		}
